@@ -95,12 +95,14 @@ fn tolerances(mode: Mode, tol: f64, n: usize, yscale: f64) -> Option<(Tol, Tol)>
     })
 }
 
-const SHIFTS: [f64; 2] = [0.0, 50.0];
+const SHIFTS: [f64; 3] = [0.0, 50.0, -1000.0];
+const SPAN_FACTORS: [f64; 3] = [1.0, 0.5, 2.0];
 
 struct Job {
     key: String,
     method: Method,
     shift: f64,
+    span_factor: f64,
     vi: usize,
     dir: Dir,
     scale: f64,
@@ -121,10 +123,18 @@ pub fn run_check(replay: Option<Value>) -> i32 {
                     for (oi, mode) in MODES.iter().enumerate() {
                         for te in [false, true] {
                             for (hi, sh) in SHIFTS.iter().enumerate() {
-                                if *sh != 0.0 && (si != 0 || te) {
-                                    continue; // the shifted origin is combined with the default scale, no t_eval
+                                // quick: the shifted origin x0 = 50.2 is combined with the default scale, no
+                                // t_eval; thorough: every origin (also x0 = -999.8) with everything
+                                if !thorough && (hi == 2 || (*sh != 0.0 && (si != 0 || te))) {
+                                    continue;
                                 }
-                                jobs.push(Job { key: format!("acc:{}.{}.{}.{}.{}.{}.{}", mi, vi, di, si, oi, te as u8, hi), method: *m, shift: *sh, vi, dir: *d, scale: *sc, mode: *mode, teval: te });
+                                for (fi, sf) in SPAN_FACTORS.iter().enumerate() {
+                                    if !thorough && fi != 0 {
+                                        continue;
+                                    }
+                                    let key = if fi == 0 { format!("acc:{}.{}.{}.{}.{}.{}.{}", mi, vi, di, si, oi, te as u8, hi) } else { format!("acc:{}.{}.{}.{}.{}.{}.{}.{}", mi, vi, di, si, oi, te as u8, hi, fi) };
+                                    jobs.push(Job { key, method: *m, shift: *sh, span_factor: *sf, vi, dir: *d, scale: *sc, mode: *mode, teval: te });
+                                }
                             }
                         }
                     }
@@ -140,6 +150,7 @@ pub fn run_check(replay: Option<Value>) -> i32 {
             }
         }
         let v = &vars[job.vi];
+        let v = &Variant { prob: v.prob.clone(), span: v.span * job.span_factor, scales: vec![] };
         let p0 = &shift(&v.prob, job.shift);
         let x_lo = 0.2 + job.shift;
         let y_lo: Vec<f64> = p0.y0.iter().map(|y| y * job.scale).collect();
@@ -173,8 +184,9 @@ pub fn run_check(replay: Option<Value>) -> i32 {
             return None;
         }
         let desc0 = json!({"key": job.key, "method": mname(job.method), "problem": p.name, "direction": format!("{:?}", job.dir), "x0": x0, "xend": xend, "y0": y0,
-            "mode": format!("{:?}", job.mode), "t_eval": job.teval, "kappa": kap, "time_shift": job.shift});
+            "mode": format!("{:?}", job.mode), "t_eval": job.teval, "kappa": kap, "time_shift": job.shift, "span_factor": job.span_factor});
         let mut worst: Vec<f64> = vec![];
+        let mut worst_units: Vec<f64> = vec![];
         let mut rows = vec![];
         let mut viols: Vec<(String, String)> = vec![];
         let mut successes = 0;
@@ -219,10 +231,12 @@ pub fn run_check(replay: Option<Value>) -> i32 {
                     }
                     out.validated += s.t.len() as u64;
                     worst.push(werr.max(floor));
+                    worst_units.push(wratio);
                     rows.push(json!({"tol": tol, "naccpt": s.naccpt, "nfev": s.nfev, "worst_error": werr, "worst_ratio_in_units_of_kappa_naccpt_tol": wratio}));
                 }
                 _ => {
                     worst.push(f64::NAN);
+                    worst_units.push(f64::NAN);
                     rows.push(json!({"tol": tol, "outcome": r.outcome_name()}));
                     out.tag("non-success");
                     failed_at.push(tol);
@@ -236,7 +250,10 @@ pub fn run_check(replay: Option<Value>) -> i32 {
             if (job.mode == Mode::Vector && LADDER[i + 1] * 1e-4 < 1e-11) || (job.mode == Mode::VectorAtol && LADDER[i + 1] * 1e-6 < 1e-11) {
                 continue;
             }
-            if worst[i].is_finite() && worst[i + 1].is_finite() && worst[i + 1] > 5.0 * worst[i] {
+            // an error that sits far below its own tolerance (a run of two or three steps that happens to be
+            // super-accurate) fluctuates freely; the clause speaks about errors the tolerance governs: the
+            // tightened run must be at least one unit of kappa*naccpt*tol off for an increase to count
+            if worst[i].is_finite() && worst[i + 1].is_finite() && worst[i + 1] > 5.0 * worst[i] && worst_units[i + 1] > 1.0 {
                 viols.push(("tightening-increases-error".into(), format!("tightening the tolerance from {:e} to {:e} increased the worst error from {:e} to {:e}", LADDER[i], LADDER[i + 1], worst[i], worst[i + 1])));
             }
         }
@@ -428,7 +445,7 @@ pub fn run_check(replay: Option<Value>) -> i32 {
     rep.violations.extend(regress::violations_for("C01"));
     rep.dims = json!({"methods": M5.iter().map(|m| mname(*m)).collect::<Vec<_>>(), "problem_variants": vars.iter().map(|v| v.prob.name.clone()).collect::<Vec<_>>(),
         "directions": ["forward", "backward by reflection", "backward on the same f (kappa <= 20)"], "tolerance_ladder": LADDER, "modes": ["mixed atol=1e-2*rtol", "pure absolute (rtol=0)", "pure relative (atol=0, solution bounded away from 0)", "per-component vectors differing by 1e4"],
-        "t_eval": ["none", "7 points incl. endpoints"], "time_origin": ["x0 = 0.2", "x0 = 50.2 (time-shifted problem)"], "ladders_run": n_ladders, "rk4": "step ladder h = span/2^k, k=3..9"});
+        "t_eval": ["none", "7 points incl. endpoints"], "time_origin": ["x0 = 0.2", "x0 = 50.2 (time-shifted problem)", "x0 = -999.8 (thorough)"], "span_factor": "1 (quick); 1, 0.5, 2 (thorough)", "ladders_run": n_ladders, "rk4": "step ladder h = span/2^k, k=3..9"});
     // vacuity: at least 95 % of the ladders must have succeeded at every tolerance... counted per ladder
     let all = rep.tag_count("ladder");
     let ok = rep.tag_count("ladder-all-success");
@@ -440,7 +457,7 @@ pub fn run_check(replay: Option<Value>) -> i32 {
     rep.require("ladder", 500);
     rep.require("rk4-convergence", 10);
     rep.require("rk4-convergence-t-eval", 10);
-    rep.rule = "every (method, problem variant, direction, initial-state scale, tolerance mode incl. per-component rtol and per-component atol with differing atol/rtol ratios, time origin, t_eval) is run over the whole tolerance ladder; oracle: every component of every returned sample within K*kappa*max(1,naccpt)*(atol_i+rtol_i*Y(t)) of the closed form (K=50, kappa = conditioning from the closed-form flow, configurations with kappa>20 skipped and counted, rounding floor 64 eps scale sqrt(nfev)); tightening 100x never increases the worst error more than 5x; RK4: observed global order >= 3.6; thorough: dissipative polynomial fields against an independent extrapolated RK4 reference; distinct = distinct ladders".into();
+    rep.rule = "every (method, problem variant, direction, initial-state scale, tolerance mode incl. per-component rtol and per-component atol with differing atol/rtol ratios, time origin, t_eval) is run over the whole tolerance ladder; oracle: every component of every returned sample within K*kappa*max(1,naccpt)*(atol_i+rtol_i*Y(t)) of the closed form (K=50, kappa = conditioning from the closed-form flow, configurations with kappa>20 skipped and counted, rounding floor 64 eps scale sqrt(nfev)); tightening 100x never increases the worst error more than 5x (counted when the tightened run's error is at least one unit kappa*naccpt*tol, i.e. governed by the tolerance); RK4: observed global order >= 3.6; thorough: dissipative polynomial fields against an independent extrapolated RK4 reference; distinct = distinct ladders".into();
     rep.assumptions.push("|y| is read as the max norm for coupled systems; a run of the alphabet that ends without Success is a violation (not-solved; whole mode failing: mode-unsupported): these are smooth well-conditioned problems at tolerances inside the stated range, also with the time origin shifted to x0 = 50.2".into());
     rep.finish()
 }
